@@ -116,4 +116,14 @@ def jobs():
                       flags=["--max-field-sensitivity-array-size", "300"],
                       unwind=12, desc="second option %s when max_size=%d: message unchanged on refusal" % ("refused" if refuse else "fits", ms),
                       bounds={"max_size": ms}))
+    # "parsing those bytes yields exactly the same message" also needs the parser's per-option length table to admit every value the
+    # building API admits (RFC 7252 5.10): that table is decided for every option number and length by the C03 option-step jobs
+    import copy
+    from jobs.C03 import jobs as c03_jobs
+    for j in c03_jobs():
+        if j.name.startswith("L2-next-option") or j.name.startswith("L2b-"):
+            j2 = copy.copy(j)
+            j2.name = "P-" + j.name
+            j2.group = "P-parse-option-step"
+            js.append(j2)
     return js
